@@ -62,18 +62,20 @@ func (r *RelationTuple) ToProto() *rts.RelationTuple {
 
 func (r *RelationTuple) FromProto(proto *rts.RelationTuple) *RelationTuple {
 	r = &RelationTuple{
-		Namespace: proto.Namespace,
-		Object:    proto.Object,
-		Relation:  proto.Relation,
+		Namespace: proto.GetNamespace(),
+		Object:    proto.GetObject(),
+		Relation:  proto.GetRelation(),
 	}
-	switch subject := proto.Subject.Ref.(type) {
+	// The subject is optional on the wire; a tuple without one is reported by
+	// Validate().
+	switch subject := proto.GetSubject().GetRef().(type) {
 	case *rts.Subject_Id:
 		r.SubjectID = pointerx.Ptr(subject.Id)
 	case *rts.Subject_Set:
 		r.SubjectSet = &SubjectSet{
-			Namespace: subject.Set.Namespace,
-			Object:    subject.Set.Object,
-			Relation:  subject.Set.Relation,
+			Namespace: subject.Set.GetNamespace(),
+			Object:    subject.Set.GetObject(),
+			Relation:  subject.Set.GetRelation(),
 		}
 	}
 
